@@ -20,6 +20,54 @@ def aggregate_use_numba_decorators : List String := []
 /-- the signature of dataiter/aggregate.py: use_numba: parameters in order, with the source text of their defaults -/
 def aggregate_use_numba_signature : List String := ["x"]
 
+/-- dataiter/aggregate.py: quantile_apply (sha256 of the function source: 11777b98628a675b) -/
+def agg_quantile_apply_py (truth : Term → Bool) : Out :=
+  let eff0 : Term := (Term.app "for" [(Term.sym "xg"), (Term.app "yield_groups" [(Term.sym "x"), (Term.sym "group"), (Term.sym "drop_na")]), (Term.app "block" [(Term.app "yield" [(Term.app "ifexp" [(Term.app "GtE" [(Term.app "len" [(Term.sym "xg")]), (Term.int (1 : Int))]), (Term.app "np.quantile" [(Term.sym "xg"), (Term.sym "q")]), (Term.sym "np.nan")])])])]);
+  Out.fall [eff0]
+
+/-- the decorators of dataiter/aggregate.py: quantile_apply, outermost first -/
+def agg_quantile_apply_py_decorators : List String := ["deco.listify"]
+
+/-- the signature of dataiter/aggregate.py: quantile_apply: parameters in order, with the source text of their defaults -/
+def agg_quantile_apply_py_signature : List String := ["x", "group", "q", "drop_na"]
+
+/-- dataiter/aggregate.py: count_unique_apply (sha256 of the function source: 514fa83708f1df5c) -/
+def agg_count_unique_apply_py (truth : Term → Bool) : Out :=
+  let eff0 : Term := (Term.app "for" [(Term.sym "xg"), (Term.app "yield_groups" [(Term.sym "x"), (Term.sym "group"), (Term.sym "drop_na")]), (Term.app "block" [(Term.app "yield" [(Term.app "len" [(Term.app "set()" [(Term.sym "xg")])])])])]);
+  Out.fall [eff0]
+
+/-- the decorators of dataiter/aggregate.py: count_unique_apply, outermost first -/
+def agg_count_unique_apply_py_decorators : List String := ["deco.listify"]
+
+/-- the signature of dataiter/aggregate.py: count_unique_apply: parameters in order, with the source text of their defaults -/
+def agg_count_unique_apply_py_signature : List String := ["x", "group", "drop_na"]
+
+/-- dataiter/aggregate.py: generic (sha256 of the function source: 4b30718266dcdd31) -/
+def agg_generic_py (truth : Term → Bool) : Out :=
+  let aggregate' : Term := (Term.app "local-def" [(Term.app "def" [(Term.app "decorator" [(Term.sym "deco.listify")]), (Term.sym "aggregate"), (Term.app "params" [(Term.sym "x"), (Term.sym "group"), (Term.sym "drop_na"), (Term.sym "default"), (Term.sym "nrequired")]), (Term.app "block" [(Term.app "for" [(Term.sym "xg"), (Term.app "yield_groups" [(Term.sym "x"), (Term.sym "group"), (Term.sym "drop_na")]), (Term.app "block" [(Term.app "yield" [(Term.app "ifexp" [(Term.app "GtE" [(Term.app "len" [(Term.sym "xg")]), (Term.sym "nrequired")]), (Term.app "function" [(Term.sym "xg"), (Term.app "=**" [(Term.sym "kwargs")])]), (Term.sym "default")])])])])])])]);
+  Out.ret [] aggregate'
+
+/-- the decorators of dataiter/aggregate.py: generic, outermost first -/
+def agg_generic_py_decorators : List String := ["functools.lru_cache(256)"]
+
+/-- the signature of dataiter/aggregate.py: generic: parameters in order, with the source text of their defaults -/
+def agg_generic_py_signature : List String := ["function", "**kwargs"]
+
+/-- dataiter/aggregate.py: yield_groups (sha256 of the function source: 296f16195c376f16) -/
+def agg_yield_groups_py (truth : Term → Bool) : Out :=
+  let i' : Int := (0 : Int);
+  let n' : Term := (Term.app "len" [(Term.sym "x")]);
+  let eff0 : Term := (Term.app "for" [(Term.sym "j"), (Term.app "range" [(Term.int (1 : Int)), (Term.app "Add" [n', (Term.int (1 : Int))])]), (Term.app "block" [(Term.app "if" [(Term.app "And" [(Term.app "Lt" [(Term.sym "j"), n']), (Term.app "Eq" [(Term.app "getitem" [(Term.sym "group"), (Term.sym "j")]), (Term.app "getitem" [(Term.sym "group"), (Term.sym "i")])])]), (Term.app "block" [(Term.sym "continue")]), (Term.app "block" [])]), (Term.app "assign" [(Term.sym "xij"), (Term.app "getitem" [(Term.sym "x"), (Term.app "slice" [(Term.sym "i"), (Term.sym "j")])])]), (Term.app "if" [(Term.sym "drop_na"), (Term.app "block" [(Term.app "assign" [(Term.sym "xij"), (Term.app "getitem" [(Term.sym "xij"), (Term.app "~" [(Term.app ".is_na" [(Term.sym "xij")])])])])]), (Term.app "block" [])]), (Term.app "yield" [(Term.sym "xij")]), (Term.app "assign" [(Term.sym "i"), (Term.sym "j")])]), (Term.app "init" [(Term.sym "i"), (Term.int i')])]);
+  let xij' : Term := (Term.app "value-after-loop" [(Term.sym "xij"), eff0]);
+  let i' : Term := (Term.app "value-after-loop" [(Term.sym "i"), eff0]);
+  Out.fall [eff0]
+
+/-- the decorators of dataiter/aggregate.py: yield_groups, outermost first -/
+def agg_yield_groups_py_decorators : List String := []
+
+/-- the signature of dataiter/aggregate.py: yield_groups: parameters in order, with the source text of their defaults -/
+def agg_yield_groups_py_signature : List String := ["x", "group", "drop_na"]
+
 /-- dataiter/aggregate.py: yield_groups_numba (sha256 of the function source: 43d0b2cde8766fa2) -/
 def agg_yield_groups_numba (truth : Term → Bool) : Out :=
   let i' : Int := (0 : Int);
